@@ -19,9 +19,16 @@ type TestFam struct {
 	WithBin  bool // include edits of the test binary's source
 	WithRm   bool
 	WithNoop bool
+	WithArgs bool // invocations may pass a test argument that makes the test skip its real work (initial tree fails without it)
 }
 
 func (c TestFam) fields() []field {
+	if c.WithArgs {
+		return []field{
+			{"data", []string{"bad", "ok"}, "data-file"},
+			{"targs", []string{"", "skip"}, "test-arguments"},
+		}
+	}
 	fs := []field{
 		{"data", []string{"ok", "bad"}, "data-file"},
 		{"lib", []string{"ok", "bad"}, "dep-source"},
@@ -37,6 +44,9 @@ func (c TestFam) fields() []field {
 }
 
 func (c TestFam) Name() string {
+	if c.WithArgs {
+		return "test-args"
+	}
 	if c.WithDir {
 		return "test-dirdata"
 	}
@@ -47,6 +57,9 @@ func (c TestFam) Initial() Src {
 	s := initialOf(c.fields())
 	if !c.WithBin {
 		s["bin"] = "ok"
+	}
+	if c.WithArgs {
+		s["lib"], s["tcmd"] = "ok", "0"
 	}
 	return s
 }
@@ -74,6 +87,10 @@ func (c TestFam) TestCmd(s Src) string {
 	case "2":
 		base += " && false" // always fails
 	}
+	if c.WithArgs {
+		// `plz test //p:t -- skip` sets $TESTS and appends the argument to the command (hence the trailing comment marker)
+		return fmt.Sprintf(testLogPfx, "//p:t") + "if [ \"${TESTS:-}\" = skip ]; then exit 0; fi; " + base + "; exit $? #"
+	}
 	return fmt.Sprintf(testLogPfx, "//p:t") + base
 }
 
@@ -98,11 +115,21 @@ func (c TestFam) Targets(s Src) []Target {
 }
 
 func (c TestFam) Args(s Src) ([]string, []string) {
+	if c.WithArgs {
+		a := []string{"test", "--plain_output", "-v", "warning", "-n", "1", "//p:t"}
+		if s["targs"] != "" {
+			a = append(a, "--", s["targs"])
+		}
+		return a, nil
+	}
 	return []string{"test", "--plain_output", "-v", "warning", "-n", "1", "//p:all"}, nil
 }
 
 // Passes is the boring reference: the verdict the test command must have on tree s.
 func (c TestFam) Passes(s Src) bool {
+	if c.WithArgs && s["targs"] == "skip" {
+		return true
+	}
 	ok := s["data"] == "ok" && s["lib"] == "ok" && s["bin"] == "ok" && s["tcmd"] != "2"
 	if c.WithDir {
 		ok = ok && s["dname"] == "x.txt"
@@ -114,6 +141,9 @@ func (c TestFam) Passes(s Src) bool {
 // data files (content, and names inside a data directory), runtime dependencies (the library's source).
 func (c TestFam) RuntimeSig(s Src) string {
 	sig := "test_cmd=" + s["tcmd"] + "|test-binary=" + s["bin"] + "|data-file=" + s["data"] + "|dep-output=" + s["lib"]
+	if c.WithArgs {
+		sig += "|test-arguments=" + s["targs"] // a run restricted by arguments is not a run of the whole test
+	}
 	if c.WithDir {
 		sig += "|name-in-data-dir=" + s["dname"]
 	}
